@@ -543,7 +543,7 @@ fn check_program(sb: &Sandbox, opts: &Opts, idx: usize, name: &str, text_or_file
                     }
                 }
                 let single_file = text_or_files.len() == 1;
-                let small = if single_file { shrink_source(sb, &src, strat, sd, &m.class) } else { src.clone() };
+                let small = if single_file && harness::may_shrink() { shrink_source(sb, &src, strat, sd, &m.class) } else { src.clone() };
                 let files = if single_file { single(&small) } else { text_or_files.clone() };
                 // final, exact replay data: the full schedule of the failing run on the shrunk program
                 let (sched, detail, class) = match compile_files(sb, &files, 1) {
